@@ -366,7 +366,7 @@ def evaluate(ctx, cases, name="cases"):
     defs = "Definition cases : list case := [\n%s\n].\n" % ";\n".join(case_term(c) for c in cases)
     evs = [("mm_" + e, "bad_indices agree_%s cases 0" % e) for e in EVALS]
     evs += [("v_agree", "bad_indices ok_agree cases 0"), ("v_spec", "bad_indices ok_spec cases 0"),
-            ("v_range", "bad_indices ok_range cases 0"),
+            ("v_range", "bad_indices ok_range cases 0"), ("v_switch", "bad_indices ok_switch cases 0"),
             ("in_spec", "bad_indices (fun k => negb (spec_class k)) cases 0")]
     res = coq.run_cases(ctx, name, PRE, defs, evs)
     if res is None:
@@ -447,12 +447,16 @@ def gen_case(rng, kind, eq=True):
     if kind == "fdt":       # the shape of DESIGN section 9 #12 stays out (record/replay line only)
         trig(pick())["filter"] = True
         cfg["depth"] = rng.choice([1, 2, 3])
-    if kind == "switch":
+    if kind in ("switch", "switch_f"):
+        if kind == "switch_f":
+            trig(pick())["filter"] = rng.choice([True, True, False])
+            if rng.random() < 0.4:
+                cfg["threshold"] = T
         trig(pick())["trace_off"] = True
         k = pick()
         if not trig(k).get("trace_off"):
             trig(k)["trace_on"] = True
-        if rng.random() < 0.5:
+        if kind == "switch" and rng.random() < 0.4:
             cfg["depth"] = rng.choice([2, 3])
     if kind == "range":
         ts = sorted(set([c.t0 for c in calls] + [c.t1 for c in calls]))
@@ -520,7 +524,7 @@ def gen_case(rng, kind, eq=True):
 
 
 KINDS = ["plain", "depth", "filter", "notrace", "fn", "fd", "time", "timetrig", "caller", "caller_time", "hide",
-         "deptrig", "fdt", "mix", "mix2", "switch", "range", "range_only", "pltleaf", "plt"]
+         "deptrig", "fdt", "mix", "mix2", "switch", "switch_f", "range", "range_only", "pltleaf", "plt"]
 
 
 # ---------------------------------------------------------------- meta
@@ -615,6 +619,11 @@ def verdict1(ctx, cases, res):
                       "filter semantics (select) for options %s" % " ".join(cli_opts(cases[i]["cfg"])),
                       {"line": 1, "check": "ok_spec", "case": case_json(cases[i]),
                        "outputs": {k: v for k, v in cases[i]["out"].items()}}, True)
+    for i in res["v_switch"][:3]:
+        ctx.violation("C07 violated: trace_on/trace_off do not act as the documented switch for options %s"
+                      % " ".join(cli_opts(cases[i]["cfg"])),
+                      {"line": 1, "check": "ok_switch", "case": case_json(cases[i]),
+                       "outputs": {k: v for k, v in cases[i]["out"].items()}}, True)
     for i in res["v_range"][:3]:
         ctx.violation("C07 violated: -r does not select exactly the records inside the time range: %s"
                       % " ".join(cli_opts(cases[i]["cfg"])),
@@ -626,7 +635,7 @@ def verdict1(ctx, cases, res):
                       {"line": 1, "check": "ok_agree", "case": case_json(cases[i]),
                        "outputs": {k: v for k, v in cases[i]["out"].items()}}, True)
     mm = {e: res["mm_" + e] for e in EVALS if res["mm_" + e]}
-    if mm and not res["v_spec"] and not res["v_agree"] and not res["v_range"]:
+    if mm and not res["v_spec"] and not res["v_agree"] and not res["v_range"] and not res["v_switch"]:
         e, idx = sorted(mm.items())[0]
         ctx.violation("model and implementation disagree for `%s` on %d case(s) (%s); the property checker accepts "
                       "every explored output" % (e, len(idx), ", ".join("%s:%d" % (k, len(v)) for k, v in sorted(mm.items()))),
